@@ -142,3 +142,32 @@ Proof.
     + intro b. now rewrite andb_false_r.
     + intro b. destruct b; cbn; split; intro H; try easy; lia.
 Qed.
+Lemma served_open : forall s, Inv s -> shut s = false -> bks s (w_bk (ws s (served s))) = 0.
+Proof.
+  intros s HI Hs. rewrite (I_cl s HI _ (I_served s HI)), (I_des s HI _ (I_served s HI)), Nat.eqb_refl, Hs.
+  reflexivity.
+Qed.
+
+Lemma step_acquire : forall s r, Inv s -> ok_op s (Acquire r) = true -> Inv (step (Acquire r) s).
+Proof.
+  intros s r HI Hok. pose proof (served_open s HI) as Hopen.
+  destruct HI as [Hsv Hbk Hinj Href Hdes Hcl Horph Hrd Hpend Hlog].
+  destruct s as [sv n w m bk rd pd sh lg]. cbn in *.
+  apply andb_prop in Hok. destruct Hok as [Hsh _]. apply negb_true_iff in Hsh. subst sh.
+  specialize (Hopen eq_refl).
+  constructor; cbn.
+  - exact Hsv.
+  - intros i Hi. unfold fupd. destruct (Nat.eqb_spec i sv); subst; cbn; auto.
+  - intros i j Hi Hj. unfold fupd. destruct (Nat.eqb_spec i sv); destruct (Nat.eqb_spec j sv); subst; cbn; intro E; auto.
+  - intros i Hi. unfold fupd. destruct (Nat.eqb_spec i sv); subst; cbn.
+    + rewrite Nat.eqb_refl, Href by auto. lia.
+    + destruct (Nat.eqb_spec sv i); [congruence|]. rewrite Href by auto. lia.
+  - intros i Hi. rewrite <- Hdes by auto. unfold fupd. destruct (Nat.eqb_spec i sv); subst; reflexivity.
+  - intros i Hi. unfold fupd. destruct (Nat.eqb_spec i sv); subst; cbn; auto.
+    rewrite Hdes by auto. rewrite Nat.eqb_refl. cbn. exact Hopen.
+  - intros b Hb H. apply Horph; auto. intros i Hi. specialize (H i Hi). unfold fupd in H.
+    destruct (Nat.eqb_spec i sv); subst; cbn in H; auto.
+  - intros r' i [H|H]; [inversion H; subst; auto|eauto].
+  - exact Hpend.
+  - apply LI_touch; auto. apply LI_touch; auto.
+Qed.
